@@ -62,7 +62,7 @@ func runC07(c *core.Ctx, o Options) {
 		"AfterFunc callbacks, exported methods; same-package callees spliced in) each send whose message kind is not Logon, Logout or Reject " +
 		"must happen in an abstract session state that excludes WaitingLogon and WaitingLogonAnswer (⊤ at entry, refined only by guards on Session.state " +
 		"and by the path's own changeState calls, closed under the transitions other goroutines can make). Rule G2: Session.start (which starts the timer " +
-		"goroutines) is called only behind the approved-logon checks of the Logon handler or from the logon event's callback. Rule G3: goroutines that send " +
+		"goroutines) is called only behind the approved-logon checks of the Logon handler or from the logon event's callback, and those checks test against the configured limits (the settings installed from the peer's Logon keep HeartBtLimits of the settings they replace). Rule G3: goroutines that send " +
 		"are spawned only by Session.start and send only Heartbeat/TestRequest. Census: every send site of the package is reached by some analysed entry point. " +
 		"Decides the library's own sends for every inbound history; does not decide what the application sends through Session.Send/Handler.Send."
 	c.Assume("messages of kind K are exactly the values of static type session/messages.KBuilder (the builders are supplied by the application's Opts)")
@@ -235,6 +235,9 @@ func runC07(c *core.Ctx, o Options) {
 		}
 		c.Check(uses == 0, "G2", "start", "start never used as a function value", posOf(startFn), "start is only called directly", fmt.Sprintf("start is used as a value at %d site(s); its callers cannot be enumerated", uses))
 	}
+	// G2 premise: the approved-logon checks test against the limits the application configured — the settings the Logon handler
+	// installs before those checks keep HeartBtLimits (and the timeouts) of the settings they replace
+	s.checkSettingsPreserved("G2")
 	// census: every send site in the package is covered by an analysed entry point
 	for _, f := range s.allFuncs() {
 		if s.isSendPrimitive(f) {
@@ -278,7 +281,7 @@ func runC07(c *core.Ctx, o Options) {
 	}
 	c.Extra["entry_points"] = len(roots)
 	c.Extra["paths"] = nTraces
-	c.RuleMin = map[string]int{"G1": 14, "G2": 4, "G3": 2, "census": 12}
+	c.RuleMin = map[string]int{"G1": 14, "G2": 5, "G3": 2, "census": 12}
 	c.MinObl = 20
 }
 
